@@ -1,6 +1,7 @@
 import Driver.Util
 import Mtv.Session.Store
 import Mtv.Session.Start
+import Mtv.Crypto.Sha1
 namespace Driver.C12
 open Mtv Mtv.Session Driver
 
@@ -66,6 +67,12 @@ def mkWorld (path : Path) (dirs : List Path) : World :=
   { path := path, fs := mkFS dirs, loaders := List.replicate 3 (Loader.new path) }
 
 def cfgHost : Bytes := str "cfg.host:443"
+
+/-- the address in the stored session of `c12.wire` (on the Go side: the loopback listener "stored") -/
+def storedHost : Bytes := str "stored.host:443"
+
+/-- the request `c12.wire` makes: `ping#7abe77ec ping_id:long` -/
+def pingBody (id : Nat) : Bytes := [0xec, 0x77, 0xbe, 0x7a] ++ leBytes id 8
 
 /-- what a started client holds: `C<enc>:<key>/<key id>/<salt>/<address>`, `Cerr:<class>` -/
 def showClient : Outcome Client → String
@@ -248,6 +255,30 @@ def handle : List String → String
         | _ => s!"client={showClient client} saved=- other=-"
       | _, _ => "bad-op"
     | _, _ => "bad-op"
+  -- the started client as the server sees it: `Client.firstMessage` (Start.lean) of the client the model starts on
+  -- the store — where it connects, plain text or not, the key id in front, the salt, the request
+  | ["c12.wire", kind, state, key, hash, salt, ping] =>
+    match parseBytes? key, parseBytes? hash, salt.toInt?, ping.toNat? with
+    | some k, some h, some salt, some ping =>
+      let s : Session := { key := k, hash := h, salt := salt, hostname := storedHost }
+      let p := str "/w/d/s.json"
+      let fs0 := mkFS [str "/w/d/", str "."]
+      let fs := if state = "1" then fs0.write p (writeSession s) 0 else fs0
+      let client? : Option (Outcome Client) :=
+        if state ≠ "0" ∧ state ≠ "1" then none
+        else if kind = "file" ∨ kind = "given" then some (newClient (Loader.new p) fs cfgHost)
+        else if kind = "mem" then some (startClient (if state = "1" then .session s else .notFound) cfgHost)
+        else none
+      match client? with
+      | none => "bad-op"
+      | some (.ok c) =>
+        let f := c.firstMessage Mtv.Crypto.sha1
+        let conn := if f.addr = storedHost then "stored" else if f.addr = cfgHost then "configured" else "none"
+        if f.plain then s!"client=C0 conn={conn} first=plain"
+        else s!"client=C1 conn={conn} first=enc keyid={toHexD f.keyId} open=ok salt={f.salt} seq=1 body={toHexD (pingBody ping)}"
+      | some (.err e) => "client=Cerr:" ++ e
+      | some (.panic q) => "panic:" ++ q
+    | _, _, _, _ => "bad-op"
   | _ => "bad-op"
 
 end Driver.C12
